@@ -233,11 +233,11 @@ def rule_D(ck, lib, sk):
             r = sk.exit_result(x)
             apps = sk.apps_on_path(x, ps)
             for j, (pid, inp, t, oc) in enumerate(apps):
-                if pid[0] != "take_while" or t[3] in seen:
+                if pid[0] != "take_while" or (t[3], pid[1]) in seen:
                     continue
                 if not r or r[0][0] != "ok":
                     continue
-                seen.add(t[3])
+                seen.add((t[3], pid[1]))
                 n += 1
                 name = path.split("::")[-1]
                 cls = pid[1]
